@@ -356,7 +356,7 @@ def set_seq_harness(variant, which):
 # ---------------------------------------------------------------------------
 
 
-def recover_harness(which):
+def recover_harness(which, text_bounds=False):
     def harness(I):
         env = JEnv(I, existing=True)
         c = I.ctx
@@ -364,7 +364,16 @@ def recover_harness(which):
         sess, skey = env.session_obj()
         dirv, d = env.direction()
         a, b = c.inp_int("start"), c.inp_int("end")
-        out = jc.run(I, I.getattr(env.j, "recover_messages"), [sess, dirv, a, b])
+        if text_bounds:
+            # the signature admits `int | str` bounds (tag values of a ResendRequest are text): the decimal text of the
+            # numbers, which SQLite converts for the INTEGER column (A-SQL-AFFINITY)
+            from pyvc.core import itos
+            c.assume(And(a >= 0, b >= 0))
+            c.realism += [a.t <= 1000000, b.t <= 1000000]
+            out = jc.run(I, I.getattr(env.j, "recover_messages"),
+                         [sess, dirv, SStr(itos(a), origin_int=a), SStr(itos(b), origin_int=b)])
+        else:
+            out = jc.run(I, I.getattr(env.j, "recover_messages"), [sess, dirv, a, b])
         jc.outcome_note(I, out)
         post = env.post()
         cl = [("recover.returns_list", out[0] == "ret" and isinstance(out[1], (SSeq, PyList)))]
@@ -413,6 +422,7 @@ def recover_concrete(env, out, skey, d, a, b):
     cl = [("recover.returns_list", out[0] == "ret")]
     if out[0] != "ret":
         return cl
+    a, b = int(a), int(b)  # (text bounds: the decimal text of the numbers)
     want = [pre.M[k] for k in sorted(pre.M) if k[1] == skey and k[2] == d and a <= k[0] <= b]
     got = list(out[1])
     cl.append(("recover.only_requested_rows", all(x in want for x in got)))
@@ -522,7 +532,8 @@ def make_tasks(which):
         Task("sessions", sessions_harness(which), cfg, [JQ + ".sessions"], native="journal"),
         Task("persist_msg", persist_harness(which), persist_cfg, [JQ + ".persist_msg"], native="journal"),
     ] + ([
-        Task("find_seq_no", find_seq_no_harness, precise_cfg, [JQ + ".find_seq_no"], timeout_ms=20000, cvc5_first=True),
+        # (budget sized for a fully loaded machine: the string queries take ~15 s on an idle one)
+        Task("find_seq_no", find_seq_no_harness, precise_cfg, [JQ + ".find_seq_no"], timeout_ms=120000, cvc5_first=True),
         Task("find_seq_no[total]", find_seq_no_total_harness, Config, [JQ + ".find_seq_no"]),
         # the abstract journal contracts of the session layer are consequences of the clauses proved here
         Task("refinement[persist_msg]", _refinement("persist"), Config, []),
@@ -536,6 +547,7 @@ def make_tasks(which):
         Task("set_seq_num[in]", set_seq_harness((False, True), which), cfg, [JQ + ".set_seq_num"], native="journal"),
         Task("set_seq_num[none]", set_seq_harness((False, False), which), cfg, [JQ + ".set_seq_num"], native="journal"),
         Task("recover_messages", recover_harness(which), cfg, [JQ + ".recover_messages"], native="journal"),
+        Task("recover_messages[text_bounds]", recover_harness(which, True), cfg, [JQ + ".recover_messages"], native="journal"),
         Task("recover_msg", recover_one_harness(which), cfg, [JQ + ".recover_msg"], native="journal"),
         Task("mustfail", mustfail, cfg, [], expect_refuted=True),
     ]
@@ -575,6 +587,8 @@ def native_case(task, inputs, crash=None):
         a["next_num_in"] = inputs.get("arg_in")
     elif name == "recover_messages":
         a["start"], a["end"] = inputs["start"], inputs["end"]
+        if "text_bounds" in task.name:
+            a["start"], a["end"] = str(a["start"]), str(a["end"])
     elif name == "recover_msg":
         a["seq_no"] = inputs["seq_no"]
     elif name not in ("sessions",):
@@ -698,10 +712,16 @@ FALLBACK = Bounded(
     "random sequences of <= 8 (10) operations over 2 mirrored sessions x 2 directions x numbers 1..6 and 1000000",
     only_when_undecided=True)
 
+# (C08's crash-consistency clauses over the same harnesses are NOT run under C13: the statement is about what one
+#  journal object answers; a change that only defers a commit leaves it true, and an alarm here would be a false one -
+#  seeded change C13-s4 is of that kind and is reported by C08.)
 PROPERTY = Property(
     "C13", make_tasks("c13"),
     bounded=[FALLBACK],
-    assumptions=ASSUMPTIONS,
+    assumptions=ASSUMPTIONS + [
+        "range bounds of recover_messages: integers, or (task recover_messages[text_bounds]) the decimal text of "
+        "non-negative integers, converted by SQLite for the INTEGER column (A-SQL-AFFINITY)",
+    ],
     trusted_base=["pyvc", "z3 5.1.0", "sqlmodel.py (assumed contract of sqlite3)"],
     functions=FUNCS,
     notes="Journaler methods are straight-line code around SQL statements; the statements are parsed from the real "
